@@ -139,6 +139,26 @@ pub fn c04(o: &Opts) -> Outcome {
         }
     }
     let mut rng = Rng(o.seed.wrapping_mul(0x9E3779B97F4A7C15) | 1);
+    // long records (beyond any internal chunk size): 70000 x A, 65536 x A + CCC, a long random record
+    {
+        let mut long = vec![vec![b'A'; 70_000], [vec![b'A'; 65_536], b"CCC".to_vec()].concat(), random_seq(&mut rng, 140_000, 2).iter().map(|&b| if b < 0x21 || b > 0x7e || b == b'>' { b'N' } else { b }).collect::<Vec<u8>>()];
+        long.push(vec![b'C'; 131_075]);
+        for norm in [false, true] {
+            cases += long.len() as u64;
+            if let Some(mut w) = c04_batch(&long, 3, norm) {
+                for kv in w.iter_mut() { if kv.0 == "seq" && kv.1.len() > 200 { kv.1 = format!("{}... ({} bytes)", &kv.1[..60], kv.1.len()); } }
+                return Outcome { cases, witness: Some(w) };
+            }
+        }
+    }
+    // the batched writer in normalised mode is only reachable with streamed input ("-"): drive it through a child process
+    {
+        let recs: Vec<Vec<u8>> = vec![b"ACGTACGTTGCA".to_vec(), b"AC".to_vec(), b"NNNNNNNN".to_vec(), b"ACNACNAC".to_vec(), b"TTTTTTT".to_vec()];
+        for norm in [true, false] {
+            cases += recs.len() as u64;
+            if let Some(w) = stdin_batch(&recs, 3, norm) { return Outcome { cases, witness: Some(w) }; }
+        }
+    }
     for round in 0..(if o.thorough { 40 } else { 8 }) {
         let k = 1 + (round % 8) as usize;
         let mut recs = Vec::new();
@@ -362,4 +382,41 @@ pub fn c05(o: &Opts) -> Outcome {
         }
     }
     Outcome { cases, witness: None }
+}
+
+/// run `OligoComputer::new("-", out, k).vectorise()` in a child process of this program with the FASTA on its stdin
+pub fn stdin_child(args: &[String]) {
+    // args: out k norm
+    let out = args[0].clone();
+    let k: usize = args[1].parse().unwrap();
+    let norm = args[2] == "true";
+    let mut c = composition::oligo::OligoComputer::new("-".to_string(), out, k);
+    c.set_norm(norm);
+    c.set_threads(2);
+    let r = c.vectorise();
+    std::process::exit(if r.is_ok() { 0 } else { 3 });
+}
+
+fn stdin_batch(recs: &[Vec<u8>], k: usize, norm: bool) -> Option<Vec<(String, String)>> {
+    use std::io::Write;
+    let sc = Scratch::new("stdin");
+    let out = sc.path("out.txt");
+    let mut fasta: Vec<u8> = Vec::new();
+    for (i, r) in recs.iter().enumerate() { fasta.extend_from_slice(format!(">r{}\n", i).as_bytes()); fasta.extend_from_slice(r); fasta.push(b'\n'); }
+    let exe = std::env::current_exe().ok()?;
+    let mut child = std::process::Command::new(exe).args(["stdin-oligo", &out, &k.to_string(), if norm { "true" } else { "false" }])
+        .stdin(std::process::Stdio::piped()).stdout(std::process::Stdio::null()).stderr(std::process::Stdio::null()).spawn().ok()?;
+    child.stdin.take()?.write_all(&fasta).ok()?;
+    let st = child.wait().ok()?;
+    let mut why = String::new();
+    if !st.success() { why = format!("streamed input: the run failed ({:?})", st.code()); }
+    else {
+        let text = std::fs::read_to_string(&out).unwrap_or_default();
+        let lines: Vec<&str> = text.split('\n').collect();
+        if lines.len() != recs.len() + 1 { why = format!("streamed input: {} rows for {} records", lines.len() - 1, recs.len()); }
+        else { for (i, r) in recs.iter().enumerate() { if let Err(e) = row_matches(lines[i], r, k, norm, " ") { why = format!("streamed input, row {}: {}", i, e); break; } } }
+    }
+    if why.is_empty() { None } else {
+        Some(vec![("seq".into(), recs.iter().map(|r| show(r)).collect::<Vec<_>>().join("|")), ("k".into(), k.to_string()), ("norm".into(), norm.to_string()), ("input".into(), "stdin (-)".into()), ("why".into(), why)])
+    }
 }
